@@ -165,10 +165,10 @@ pub fn spaces(ctx: &Ctx) -> Vec<Box<dyn InputSpace>> {
     let docs: Vec<Vec<u8>> = materialise(cfg).into_iter().map(|d| d.xml.into_bytes()).collect();
     let mut v: Vec<Box<dyn InputSpace>> = vec![
         Box::new(Bytes {
-            alphabet: ctx.tier.pick(BYTE_ALPHABET, BYTE_ALPHABET_THOROUGH).to_vec(),
+            alphabet: BYTE_ALPHABET.to_vec(),
             max_len: ctx.tier.pick(6, 7),
         }),
-        Box::new(Tokens { tokens: xml_tokens(), max_len: ctx.tier.pick(5, 6) }),
+        Box::new(Tokens { tokens: xml_tokens(), max_len: 5 }),
         Box::new(Edits::new(docs, false)),
     ];
     // long names / values / character data with a multi-byte character at every offset, and deep nesting
